@@ -102,6 +102,14 @@ Definition hidden_id (fs : fsys) (hide : list bytes) (id : N) : bool :=
   existsb (fun h => match fs_open fs h with Some hn => n_id hn =? id | None => false end) hide.
 Definition is_hidden (fs : fsys) (hide : list bytes) (n : node) : bool := hidden_id fs hide (n_id n).
 
+(* the same test with the hide list opened ONCE: the identities of the hide-list entries that can be
+   opened; [mem_N (hidden_ids fs hide) id = hidden_id fs hide id] (C02_Proofs.hidden_ids_spec).
+   Loops over many entries (listing, archive walk, the executable spec) bind it with [let], so
+   that evaluation does not re-open the hide list for every entry. *)
+Definition mem_N (l : list N) (x : N) : bool := existsb (N.eqb x) l.
+Definition hidden_ids (fs : fsys) (hide : list bytes) : list N :=
+  flat_map (fun h => match fs_open fs h with Some hn => [n_id hn] | None => [] end) hide.
+
 (* Accept-Encoding: strings.Split(",") then TrimSpace then exact comparison *)
 Definition is_space (c : N) : bool :=
   (c =? 32) || (c =? 9) || (c =? 10) || (c =? 13) || (c =? 11) || (c =? 12).
@@ -183,13 +191,20 @@ Definition descendants (fs : fsys) (d : bytes) : list node := filter (fun n => i
 (* the archive walker (fs.Walk below the directory, the directory itself left out): an entry that
    is hidden is passed over, and a hidden directory is not descended into (filepath.SkipDir) —
    a descendant is archived iff neither it nor a directory between [d] and it is hidden *)
-Definition cut_by (fs : fsys) (hide : list bytes) (d : bytes) (k : node) (a : node) : bool :=
-  is_hidden fs hide a && is_desc d (n_path a) &&
-  (beq (n_path a) (n_path k) || (n_dir a && is_desc (n_path a) (n_path k))).
-Definition archived (fs : fsys) (hide : list bytes) (d : bytes) (k : node) : bool :=
-  negb (existsb (cut_by fs hide d k) fs).
+Definition cut_by (k : node) (a : node) : bool :=
+  beq (n_path a) (n_path k) || (n_dir a && is_desc (n_path a) (n_path k)).
+(* the hidden entries below [d] (computed once per walk) *)
+Definition archive_cuts (fs : fsys) (hide : list bytes) (d : bytes) : list node :=
+  let hid := hidden_ids fs hide in
+  filter (fun a => mem_N hid (n_id a) && is_desc d (n_path a)) fs.
 Definition archive_members (fs : fsys) (hide : list bytes) (d : bytes) : list node :=
-  filter (archived fs hide d) (descendants fs d).
+  let cuts := archive_cuts fs hide d in
+  filter (fun k => negb (existsb (cut_by k) cuts)) (descendants fs d).
+
+(* the listing filter: children that are not hidden *)
+Definition visible_kids (fs : fsys) (hide : list bytes) (kids : list node) : list node :=
+  let hid := hidden_ids fs hide in
+  filter (fun k => negb (mem_N hid (n_id k))) kids.
 
 Definition browse (fs : fsys) (hide pages : list bytes) (prefix : bytes) (confs : list bconf)
            (meth : N) (req ae archive : bytes) : outcome :=
@@ -212,7 +227,7 @@ Definition browse (fs : fsys) (hide pages : list bytes) (prefix : bytes) (confs 
           let kids := children fs dirp in
           if existsb (fun k => existsb (beq (rel_name dirp (n_path k))) pages) kids then next
           else match archive with
-               | [] => Listing (filter (fun k => negb (is_hidden fs hide k)) kids)
+               | [] => Listing (visible_kids fs hide kids)
                | _ => if existsb (beq archive) (b_types bc)
                       then Archive (archive_members fs hide dirp)
                       else Status 404
@@ -264,7 +279,6 @@ Inductive case :=
    is judged *)
 | CContract (s : site) (r : request) (o : obs).
 
-Definition mem_N (l : list N) (x : N) : bool := existsb (N.eqb x) l.
 Definition mem_b (l : list bytes) (x : bytes) : bool := existsb (beq x) l.
 Definition seteq_N (a b : list N) : bool := forallb (mem_N b) a && forallb (mem_N a) b.
 Definition seteq_b (a b : list bytes) : bool := forallb (mem_b b) a && forallb (mem_b a) b.
@@ -326,7 +340,7 @@ Definition allowed_static (pages : list bytes) (req ae p : bytes) : bool :=
   mem_b bases p ||
   existsb (fun e => accepts ae (fst e) && mem_b (map (fun b => b ++ snd e) bases) p) gen_static_encodings.
 
-Definition spec_ok (s : site) (r : request) (o : obs) : bool :=
+Definition spec_ok_ref (s : site) (r : request) (o : obs) : bool :=
   let fs := s_fs s in
   let c := jail (q_path r) in
   (* id is the identity of a regular, non-hidden file inside the root at a permitted place *)
@@ -342,6 +356,37 @@ Definition spec_ok (s : site) (r : request) (o : obs) : bool :=
   match o_kind o with
   | 0 => forallb (ok_file (allowed_static (s_pages s) (q_path r) (q_ae r))) (o_ids o) &&
          (* a 200 answer to GET is exactly one file *)
+         (if (o_status o =? 200) && (q_meth r =? 0) then N.of_nat (length (o_ids o)) =? 1 else true)
+  | 1 => seteq_N (o_ids o) [] && forallb (fun nm => visible (child_path c nm)) (o_names o)
+  | _ => forallb (ok_file (fun p => is_desc c p && negb (below_hidden p))) (o_ids o) &&
+         forallb (fun nm => visible (child_path c nm) && negb (below_hidden (child_path c nm))) (o_names o)
+  end.
+
+(* [spec_ok_ref] evaluated without recomputation ([spec_ok s r o = spec_ok_ref s r o] for all
+   arguments: C02_Props.C02_spec_ok_is_reference): the hide list is opened once, the hidden
+   directories below the archived directory are collected once, the set of names a plain answer
+   may come from is built once, and [where_] is only asked for nodes of the right identity. *)
+Definition allowed_static_set (pages : list bytes) (req ae : bytes) : list bytes :=
+  let c := jail req in
+  let bases := c :: map (child_path c) pages in
+  bases ++ flat_map (fun e => if accepts ae (fst e) then map (fun b => b ++ snd e) bases else [])
+                    gen_static_encodings.
+
+Definition spec_ok (s : site) (r : request) (o : obs) : bool :=
+  let fs := s_fs s in
+  let c := jail (q_path r) in
+  let hid := hidden_ids fs (s_hide s) in
+  let ok_file (where_ : bytes -> bool) (id : N) :=
+    negb (mem_N hid id) &&
+    existsb (fun n => if (n_id n =? id) && negb (n_dir n) then where_ (n_path n) else false) fs in
+  let visible (p : bytes) :=
+    match fs_at fs p with Some n => negb (mem_N hid (n_id n)) | None => false end in
+  let hdirs := filter (fun a => n_dir a && mem_N hid (n_id a) && is_desc c (n_path a)) fs in
+  let below_hidden (p : bytes) := existsb (fun a => is_desc (n_path a) p) hdirs in
+  same_origin (o_loc o) &&
+  match o_kind o with
+  | 0 => (let allowed := allowed_static_set (s_pages s) (q_path r) (q_ae r) in
+          forallb (ok_file (mem_b allowed)) (o_ids o)) &&
          (if (o_status o =? 200) && (q_meth r =? 0) then N.of_nat (length (o_ids o)) =? 1 else true)
   | 1 => seteq_N (o_ids o) [] && forallb (fun nm => visible (child_path c nm)) (o_names o)
   | _ => forallb (ok_file (fun p => is_desc c p && negb (below_hidden p))) (o_ids o) &&
